@@ -483,6 +483,57 @@ def r14_classifiers_accept_any_payload(ctx):
     R.floor("C05.R14", n, 8, "classification attempts of the client")
 
 
+
+def r15_routing_does_not_end_subscriptions(ctx):
+    """`closure for lagging sends exactly one unsubscribe request`: the unsubscribe request is built from the manager's
+    entry by the send task (build_unsubscribe_message) when it handles the SubscriptionClosed message. The routing
+    function process_subscription_response therefore only *reports* the id of a subscription that must be closed - it
+    does not take the entry out of the manager itself (the later SubscriptionClosed would then find nothing and no
+    unsubscribe would be written)."""
+    F, R = ctx.F, ctx.R
+    b = F.one(r"^jsonrpsee_core::client::async_client::helpers::process_subscription_response$")
+    R.fn(b)
+    muts = [c for x in F.nested(b) for c in x.calls_to(r"RequestManager::(remove_subscription|unsubscribe|insert_\w+|complete_\w+|remove_\w+)$")]
+    R.check(not muts, "C05.R15", "process_subscription_response:read-only", "routing a notification leaves the manager's tables alone", "process_subscription_response changes the request manager (%s): a subscription that is removed here is gone by the time the send task handles its SubscriptionClosed message, so no unsubscribe request is written and the server keeps the subscription" % sorted({short(c.name()) for c in muts}), where(muts[0]) if muts else "%s:%d" % (b.file, b.lo))
+
+
+def r16_every_notification_kind_counts_as_content(ctx):
+    """`single vs array makes no difference`: an array is refused as an empty batch only if it held nothing the client
+    recognises. In the element loop every successful non-response attempt (subscription item, subscription close, plain
+    notification) marks the array as non-empty (`got_notif = true`) - a kind that forgets to, makes an array holding only
+    that kind tear the connection down (EmptyBatchRequest), ending every other stream too."""
+    from .common import client_message_handlers
+    F, R = ctx.F, ctx.R
+    n = 0
+    for hb in client_message_handlers(F):
+        flags = []
+        for l, defs in hb.defs.items():
+            if hb.locals[l]["ty"] != "bool" or not hb.locals[l].get("user"):
+                continue
+            trues = [bi for bi, si, dpl, src in defs if src[0] == "rv" and src[1]["k"] == "use" and (op_const(src[1]["op"]) or {}).get("bool") is True and enclosing_loop_next(hb, bi) is not None]
+            if trues:
+                flags.append((l, set(trues)))
+        elems = [c for c in _classifier_calls(hb) if enclosing_loop_next(hb, c.bb) is not None]
+        if not elems:
+            continue
+        if not flags:
+            R.anchor_lost("C05.R16", "the `a notification was seen` flag of the element loop in %s" % hb.path)
+            continue
+        marks = set().union(*[t for _, t in flags])
+        for c in elems:
+            ty = _norm_ty(c.ga[-1])
+            if "Response<" in ty and "Notification" not in ty:
+                continue   # responses are collected into the batch range instead
+            n += 1
+            nx = enclosing_loop_next(hb, c.bb)
+            okt = None
+            for sb, arms, other in flow.switch_on(hb, c.dest["l"]):
+                okt = arms.get("0", other)
+            ok = okt is not None and (okt in marks or flow.all_paths_pass(hb, okt, marks, {nx.bb} | set(hb.exits)))
+            R.check(ok, "C05.R16", "element:%s:counts-as-content" % short(ty)[:60], "a recognised %s marks the array as non-empty" % short(ty)[:40], "an array element recognised as %s does not mark the array as non-empty: an array that holds only such elements is refused as an empty batch and the connection is torn down, although the same message sent alone is handled" % short(ty)[:80], where(c))
+    R.floor("C05.R16", n, 3, "non-response element kinds")
+
+
 def rkeys_manager_keys_not_derived(ctx):
     """ids are matched exactly"""
     from .common import manager_keys_not_derived
@@ -496,7 +547,7 @@ def rsel_shutdown_is_a_select_branch(ctx):
     shutdown_is_a_select_branch(ctx, "C05.SEL")
 
 
-RULES = [rsel_shutdown_is_a_select_branch, r1_classifier_agreement, r2_routing, r3_lag_and_close, r4_single_unsubscribe, r5_close_messages_are_not_lossy, r6_refused_insert_is_pure, r7_classifiers_are_plain, r8_client_builder_fields, r9_lagged_is_reported_as_lagged, r10_sub_ids_spelled_alike, r11_response_attempt_unconditional, r12_stream_ends_only_when_channel_ends, r13_channel_is_the_only_buffer, r14_classifiers_accept_any_payload, rarr_every_element, rcancel_receive_is_cancel_safe, rkeys_manager_keys_not_derived]
+RULES = [rsel_shutdown_is_a_select_branch, r1_classifier_agreement, r2_routing, r3_lag_and_close, r4_single_unsubscribe, r5_close_messages_are_not_lossy, r6_refused_insert_is_pure, r7_classifiers_are_plain, r8_client_builder_fields, r9_lagged_is_reported_as_lagged, r10_sub_ids_spelled_alike, r11_response_attempt_unconditional, r12_stream_ends_only_when_channel_ends, r13_channel_is_the_only_buffer, r14_classifiers_accept_any_payload, r15_routing_does_not_end_subscriptions, r16_every_notification_kind_counts_as_content, rarr_every_element, rcancel_receive_is_cancel_safe, rkeys_manager_keys_not_derived]
 
 LEVEL_TEXT = (
     "Structural necessary conditions of the client's notification demultiplexing decided from the type-checked program: "
